@@ -25,7 +25,8 @@ class Explorer:
     def __init__(self, rlimit=RLIMIT, max_paths=20000, wall_s=None):
         self.rlimit = rlimit
         self.max_paths = max_paths
-        self.deadline = (time.time() + wall_s) if wall_s else None
+        # budget in CPU seconds of this process (z3 runs in-process): independent of machine load
+        self.deadline = (time.process_time() + wall_s) if wall_s else None
         self.pending = []          # list of (prefix decisions, model or None)
         self.queries = 0
         self.solver_s = 0.0
@@ -85,7 +86,7 @@ class Explorer:
         return None
 
     def _timeup(self):
-        return self.deadline is not None and time.time() > self.deadline
+        return self.deadline is not None and time.process_time() > self.deadline
 
     # ------------------------------------------------------------------ branching
     def decide(self, cond):
